@@ -99,9 +99,11 @@ func (s *Server) handleAuthentication(conn net.Conn) error {
 		}
 		return fmt.Errorf("socks5 client provided authentication is not supported by socks5 server")
 	}
-	if requestNoAuth {
-		// Handle no authentication. This has higher priority than user password authentication.
-		if !requestUserPassAuth && len(s.config.AuthOpts.IngressCredentials) > 0 {
+	credentialsRequired := len(s.config.AuthOpts.IngressCredentials) > 0
+	if requestNoAuth && !(requestUserPassAuth && credentialsRequired) {
+		// Handle no authentication. This has higher priority than user password authentication,
+		// unless credentials are required and the client is able to provide them.
+		if !requestUserPassAuth && credentialsRequired {
 			HandshakeErrors.Add(1)
 			return fmt.Errorf("socks5 client requested no authentication, but user and password are required by socks5 server")
 		}
